@@ -15,8 +15,8 @@ PROPS = {
     "C19": {"level": "exploration", "engines": "SR", "quick": {"cases": 2400, "secs": 45, "shrink_secs": 10}, "thorough": DEFAULT_T, "rule": GEN_RULE, "assumptions": []},
     "C14": {"level": "fault_enumeration", "engines": "S", "quick": {"cases": 2240, "secs": 50, "shrink_secs": 8}, "thorough": DEFAULT_T,
             "rule": GEN_RULE + "; per workload the fault-free run is traced and every read operation (ReadFile/Open/Read) is failed in turn with ENOENT, EACCES, EISDIR, EIO, a truncated and a bit-flipped result; include graphs (self, 2- and 3-cycles, diamond, missing, directory), flag faults, byte soup and edge inputs are separate sub-checks", "assumptions": ["one fault per run", "step budget 400000 / task budget 2000 (400 in the include-graph sub-check) stand for 'does not terminate'"]},
-    "C18": {"level": "fault_enumeration", "engines": "S", "quick": {"cases": 450, "secs": 50, "shrink_secs": 8}, "thorough": DEFAULT_T,
-            "rule": "workloads: knut format on one file, on 2-4 files (parseable, unparseable, mixed; worker count varied), in an unwritable directory, and knut infer --inplace (training file separate or identical to the target); per workload the fault-free run is traced, then every file-system operation is failed with every applicable errno, every byte offset of every payload write (all offsets up to 700 bytes, 68 drawn offsets above) is cut short with ENOSPC, and a crash is placed before every operation and after the last, with every legal durable image enumerated (directory operations persist in order, any suffix may be lost; data is durable only after fsync, any prefix of unsynced bytes may persist); a case is non-trivial when the fault-free run changes at least one file",
+    "C18": {"level": "fault_enumeration", "engines": "SX", "quick": {"cases": 300, "secs": 50, "shrink_secs": 8}, "thorough": DEFAULT_T,
+            "rule": "workloads: knut format on one file, on 2-4 files (parseable, unparseable, mixed; worker count varied), in an unwritable directory, and knut infer --inplace (training file separate or identical to the target); per workload the fault-free run is traced, then every file-system operation is failed with every applicable errno, every byte offset of every payload write (all offsets up to 700 bytes, 68 drawn offsets above) is cut short with ENOSPC, and a crash is placed before every operation and after the last, with every legal durable image enumerated (directory operations persist in order, any suffix may be lost; data is durable only after fsync, any prefix of unsynced bytes may persist); a case is non-trivial when the fault-free run changes at least one file; sub-check real-fsize (engine X, corroboration only): the shipped binary formats a real file under prlimit --fsize=k for 25 values of k",
             "assumptions": ["crash model: ordered metadata, data durable after fsync (ext4 data=ordered-like); one fault per run", "exit status after a fault belongs to C14 and is not judged here", "fetch.writeFile is not exercised (no network)"]},
     "C12": {"level": "exploration", "engines": "S", "quick": {"cases": 12000, "secs": 45, "shrink_secs": 8}, "thorough": DEFAULT_T,
             "rule": "price graphs over 2-6 commodities: trees, graphs with alternative paths and cycles, possibly disconnected, with redeclarations over 6 days, inverse declarations, 1/3-like reciprocals and (sub-check zero-price) a zero price; every valuation commodity; each graph is normalised at the library API of the instrumented price package under 6 map-order permutations and once through balance -v; distinct by the hash of the declarations and the valuation commodity",
